@@ -145,3 +145,17 @@ def dict_of_present(k1, v1, p1, k2, v2, p2):
     if p2:
         out[k2] = v2
     return out
+
+
+def all_typed(values, type_name, timex):
+    for v in values:
+        if not (v["type"] == type_name and v["timex"] == timex):
+            return False
+    return True
+
+
+def no_value_is(values, bad):
+    for v in values:
+        if v["value"] == bad:
+            return False
+    return True
